@@ -197,6 +197,13 @@ def main(tier, seed, replay=None):
     # task::read_depfile on real files (flattening, NUL terminator, missing file = empty) against depfile_deps
     if not replay:
         rd_cases = ["-x"] + [hexs(t) for _, t in structured[:1500]] + [lines[i] for i in rng.sample(range(len(cases)), min(1500, len(cases)))]
+        # names that are not valid UTF-8 (ISO-8859-1 file names, stray bytes): the dependencies are the listed bytes, unchanged
+        raw_names = [(b"o: src.c caf\xe9.h \\\n plain.h\n", [b"src.c", b"caf\xe9.h", b"plain.h"]),
+                     (b"o: \xff\xfe x\n", [b"\xff\xfe", b"x"]),
+                     (b"\xe9.o: a\xc3 b\n", [b"a\xc3", b"b"]),
+                     (b"o: d\xe4r/\xfcber.h \xc3\xa9.h\n", [b"d\xe4r/\xfcber.h", b"\xc3\xa9.h"]),
+                     (b"a: \x80\n\nc: \xbf\xbf \\\n\xf0\x9f\n", [b"\x80", b"\xbf\xbf", b"\xf0\x9f"])]
+        rd_cases += [hexs(t) for t, _ in raw_names]
         rd_cases = [c if c != "-" else "" for c in rd_cases]
         rd_impl = run_lines_sharded([har, "readdepfile"], [c or "-" for c in rd_cases])
         rd_model = run_lines_sharded([drv, "depfiledeps"], [c or "-" for c in rd_cases])
@@ -208,6 +215,10 @@ def main(tier, seed, replay=None):
                 rd_bad += 1
                 if rd_bad <= 3:
                     run.tie("correspondence task::read_depfile", {"depfile_hex": c[:400], "implementation": a[:300], "model": m[:300]})
+            for t, want in raw_names:
+                if c == hexs(t) and a.strip() != "ok " + ",".join(hexs(w) for w in want):
+                    run.report_failure(None, "depfile %r: the dependencies reported are %s, the listed prerequisites are %r" % (t, a[:120], want),
+                                       {"case": "non-UTF-8 names", "depfile_hex": c})
             if c == "-x" and a.strip() != "ok":
                 run.report_failure(None, "a missing depfile does not count as empty: %s" % a[:120], {"case": "missing depfile"})
         run.coverage["read_depfile_cases"] = len(rd_cases)
